@@ -172,7 +172,9 @@ func ExecuteRace(ctx context.Context, members []Member) (proto.Message, int, err
 // The returned chan will contain the responses in completion order.
 // The chan will be closed once all members have returned a result.
 func executeEach(ctx context.Context, members []Member) <-chan memberResponse {
-	responses := make(chan memberResponse)
+	// buffered so members can always report their response and finish, even if the caller has stopped reading
+	// because it already has its answer, as ExecuteFast and ExecuteRace do
+	responses := make(chan memberResponse, len(members))
 	var all sync.WaitGroup
 	all.Add(len(members))
 
